@@ -183,6 +183,7 @@ func init() {
 		reproDeferredCrossing(c, a)
 		partIntegrityStorm(c, a)
 		partStepThrough(c, a, []string{"compadd-vs-compadd"})
+		partSignedLatency(c, a) // (a refused request in the middle of a measurement changes nothing)
 		return a.finish(c)
 	}
 	registry["C05"] = func(c *check.Ctx) int {
